@@ -58,7 +58,7 @@ def do_doc_op(handle, op):
 
 class Engine(EngineBase):
     def budget(self, tier):
-        return (320, 50.0) if tier == "quick" else (12000, 900.0)
+        return (800, 55.0) if tier == "quick" else (20000, 900.0)
 
     def rule(self):
         return ("seeded scenarios (target in job document / project document / buffered flush of 1-3 "
